@@ -122,7 +122,90 @@ def replay_prop(r):
     raise SystemExit(f"unknown kind {kind}")
 
 
-HANDLERS = {"prop": replay_prop}
+def heur_failures(r):
+    """runs the real value heuristic + backtrack on a concrete stack and returns the set of C09/C07 failure kinds"""
+    import nucs.heuristics.heuristics as H
+    import nucs.solvers.choice_points as CP
+
+    TABLES = [[[1, 2], [4, 7]], [[4, 3], [2, 1]], [[7, 0], [0, 7]]]
+    hname, top, d, height, a, b = r["heuristic"], r["top"], r["dom_idx"], r["height"], r["a"], r["b"]
+    ND, NP = r.get("ND", 2), r.get("NP", 2)
+    rng = np.random.RandomState(12345)
+    stack = rng.randint(-50, 50, size=(height, ND, 2)).astype(np.int32)
+    ne = rng.randint(0, 2, size=(height, NP)).astype(bool)
+    du = rng.randint(0, 8, size=(height, 2)).astype(np.uint16)
+    st = np.array([top], dtype=np.uint8)
+    stack[top, d] = (a, b)
+    params = np.array(r["costs"], dtype=np.int64) if "costs" in r else np.array([[]], dtype=np.int64)
+    before, ne_before, du_before = stack.copy(), ne.copy(), du.copy()
+    fails = set()
+    events = int(H.DOM_HEURISTIC_FCTS[getattr(H, "DOM_HEURISTIC_" + hname.upper())](params, stack, ne, du, st, d))
+    newtop = int(st[0])
+    if newtop == top:
+        return {"no-choice-point-created"}, dict(events=events)
+    levels = list(range(top, newtop + 1))
+    ranges = [(int(stack[l, d, 0]), int(stack[l, d, 1])) for l in levels]
+    vals = []
+    for lo, hi in ranges:
+        if lo > hi:
+            fails.add("empty-part")
+        vals += list(range(lo, hi + 1))
+    if set(range(a, b + 1)) - set(vals):
+        fails.add("value-lost")
+    if set(vals) - set(range(a, b + 1)):
+        fails.add("value-invented")
+    if len(vals) != len(set(vals)):
+        fails.add("overlap")
+    for l in levels:
+        for dd in range(ND):
+            if dd != d and (stack[l, dd] != before[top, dd]).any():
+                fails.add("other-domain-touched")
+        if (ne[l] != ne_before[top]).any():
+            fails.add("flags-not-copied")
+    for l in range(top):
+        if (stack[l] != before[l]).any() or (ne[l] != ne_before[l]).any() or (du[l] != du_before[l]).any():
+            fails.add("lower-level-touched")
+
+    def need(lo, hi):
+        return (1 if lo != a else 0) | (2 if hi != b else 0) | (4 if lo == hi else 0)
+
+    if need(*ranges[-1]) & ~events:
+        fails.add("event-not-announced")
+    recs = {}
+    for l in levels[:-1]:
+        recs[l] = int(du[l, 1])
+        if int(du[l, 0]) != d or (need(int(stack[l, d, 0]), int(stack[l, d, 1])) & ~recs[l]):
+            fails.add("alternative-event-not-recorded")
+    ne[newtop] = ne[newtop] & (rng.randint(0, 2, size=NP).astype(bool))
+    saved_dom, saved_ne = stack.copy(), ne.copy()
+    triggers = np.array(TABLES[r.get("table", 0)], dtype=np.uint8)
+    stats = np.zeros(13, dtype=np.int64)
+    cur = newtop
+    while cur > top:
+        trig = np.zeros(NP, dtype=bool)
+        ok = CP.backtrack(stats, ne, du, st, trig, triggers)
+        cur -= 1
+        want = [bool(saved_ne[cur, p]) and (int(triggers[d, p]) & recs[cur]) != 0 for p in range(NP)]
+        if not ok or int(st[0]) != cur or (stack[cur] != saved_dom[cur]).any() or (ne[cur] != saved_ne[cur]).any() or list(map(bool, trig)) != want:
+            fails.add("backtrack-does-not-restore")
+    if int(stats[9]) != newtop - top:
+        fails.add("backtrack-count")
+    return fails, dict(events=events, ranges=ranges, recorded=recs)
+
+
+def replay_heur(r):
+    kind = r["kind"]
+    if kind in ("oob", "dtype"):
+        try:
+            fails, info = heur_failures(r)
+        except (IndexError, OverflowError, ValueError) as e:
+            return True, f"real numpy raised {type(e).__name__}: {e}"
+        return False, f"no exception; failures={sorted(fails)}"
+    fails, info = heur_failures(r)
+    return kind in fails, f"failures={sorted(fails)} {info}"
+
+
+HANDLERS = {"prop": replay_prop, "heur": replay_heur}
 
 
 def validate_prop(w):
